@@ -27,14 +27,40 @@ def hx(v, key="frame"):
     return "".join(c.upper() if r.random() < 0.5 else c for c in s)
 
 
+class CallTimeout(Exception):
+    """a library call did not come back within VERIF_CALL_TIMEOUT seconds (default 120; a normal call takes milliseconds to a
+    few seconds): recorded like any other exception type escaping, i.e. the call is not total"""
+
+
+_TIMEOUTS = {"n": 0}
+
+
+def _on_alarm(signum, frame):
+    raise CallTimeout()
+
+
 def apply(pm, v):
+    import os
+    import signal
     f = CALLS.get(v["fn"])
     if f is None:
         raise KeyError("no call registered for fn=%r" % v["fn"])
+    if _TIMEOUTS["n"] >= 3:
+        # three calls in this worker already ran into the limit: the rest is not attempted (the verdict is settled)
+        return {"t": "x", "v": enc.text("CallTimeout")}
+    limit = float(os.environ.get("VERIF_CALL_TIMEOUT", "120"))
+    old = signal.signal(signal.SIGALRM, _on_alarm)
+    signal.setitimer(signal.ITIMER_REAL, limit, 5.0)        # keeps firing: a bare `except:` in the library may swallow the first
     try:
         return f(pm, v)
+    except CallTimeout:
+        _TIMEOUTS["n"] += 1
+        return {"t": "x", "v": enc.text("CallTimeout")}
     except Exception as e:  # noqa: BLE001
         return enc.exc(e)
+    finally:
+        signal.setitimer(signal.ITIMER_REAL, 0)
+        signal.signal(signal.SIGALRM, old)
 
 
 # ---- C01 ----
@@ -360,7 +386,8 @@ def _g2a(pm, v):
 
 @reg("common.wrongstatus")
 def _cws(pm, v):
-    d = pm.common.hex2bin(pm.common.data(hx(v)))
+    # the 56 payload bits are prepared here, not with the library's own hex2bin / data (a defect there is theirs to show)
+    d = "".join(format(b, "08b") for b in v["frame"][4:11])
     return enc.res(pm.common.wrongstatus(d, v["sb"], v["msb"], v["lsb"]))
 
 
